@@ -306,7 +306,7 @@ theorem invN_capMap {c : Cfg} {s s' : State} {t : Nat} {sent : Bool} (hi : InvN 
 theorem invN_step {c : Cfg} {s s' : State} {t : Nat} {l : Label} (hi : InvN s) (h : step c s t l = some s') :
     InvN s' := by
   cases l <;> simp only [step] at h
-  case call op => invn_step hi h stepCall
+  case call op a => invn_step hi h stepCall
   case advance d => simp at h; subst h; exact ⟨hi.rem_lt, hi.not_sub, hi.not_nodup, hi.pend_sub, hi.pend_fresh, hi.pend_nodup, hi.pend_disj⟩
   case read => invn_step hi h stepRead
   case insMap => invn_step hi h stepInsMap
